@@ -180,9 +180,12 @@ func kindOfResp(m message.Message) string {
 	return "other"
 }
 
-func mkResp(kind string, id uint32, rsid, ralias int) message.Message {
+func mkResp(kind string, id uint32, rsid, ralias int, refused bool) message.Message {
 	rid := message.RequestID(id)
 	ok := message.ResultCodeSucceeded
+	if refused {
+		ok = message.ResultCodeUnspecifiedError
+	}
 	switch kind {
 	case "upopenr":
 		return &message.UpstreamOpenResponse{RequestID: rid, AssignedStreamID: sidOf(rsid), AssignedStreamIDAlias: uint32(ralias), ResultCode: ok}
@@ -296,7 +299,7 @@ func (i *impl) barrier() string {
 	if w == nil || w.done {
 		return "no-sentinel"
 	}
-	i.tr.in <- mkResp("metaack", w.id, 0, 0)
+	i.tr.in <- mkResp("metaack", w.id, 0, 0, false)
 	if r := i.waitResult(99, watchdog); r == nil {
 		return "hang"
 	}
@@ -435,13 +438,17 @@ func main() {
 		case "resp":
 			id := uint32(n(1))
 			rsid, ral := 0, 0
+			refused := w[len(w)-1] == "refused" // the broker refuses the request (result code other than Succeeded)
+			if refused {
+				w = w[:len(w)-1]
+			}
 			if len(w) == 5 {
 				rsid, ral = n(3), n(4)
 			} else if len(w) == 4 {
 				ral = n(3)
 			}
 			wt := im.byID[id]
-			im.tr.in <- mkResp(w[2], id, rsid, ral)
+			im.tr.in <- mkResp(w[2], id, rsid, ral, refused)
 			classify := func(r *callRes) string {
 				c := strconv.Itoa(r.caller)
 				f := strings.Fields(r.out)
